@@ -66,7 +66,7 @@ def gen_cases(tier, seed):
                 yield {"kind": "twin", "entry": entry, "source": list(src), "seed": r.randrange(1 << 30)}
     for i in range(12 if tier == "quick" else 400):
         yield {"kind": "alphas", "seed": r.randrange(1 << 30), "sample": N77[i % 5], "reference": N77[(i + 2) % 5]}
-    for i in range(10 if tier == "quick" else 300):
+    for i in range(24 if tier == "quick" else 300):
         yield {"kind": "isosteric", "seed": r.randrange(1 << 30)}
     if tier == "thorough":
         # every pressure representation x every non-fractional loading representation, for the cheap methods
@@ -366,16 +366,19 @@ def _run_isosteric(case, ctx):
         return
     lp = list(numpy.asarray(ra[1]["loading"], dtype=float)[5:45:5])
     ra = _call(ch.isosteric_enthalpy, isos, loading_points=lp)
-    pr = r.choice(RU.PRESSURE_REPR[:8])  # a common absolute unit (relative pressure depends on p0(T): another quantity)
+    pr = r.choice(RU.PRESSURE_REPR)  # any representation, relative ones included: the enthalpy is defined on absolute pressures
+    only_one = r.random() < 0.35  # ... and sometimes only one isotherm of the set is converted
+    pick = r.randrange(len(isos))
     lr = r.choice([("molar", "mol"), ("molar", "cm3(STP)"), ("mass", "g"), ("mass", "mg"), ("molar", "mmol")])
     tu = r.choice(["K", "°C"])
     twins = []
-    for iso in isos:
+    for k, iso in enumerate(isos):
         cp = gen.copy_point(iso)
         if case["seed"] % 2 == 0:
             _warm(cp)  # (even seeds: the copy has been queried before it is converted)
         try:
-            cp.convert_pressure(mode_to=pr[0], unit_to=pr[1])
+            if not only_one or k == pick:
+                cp.convert_pressure(mode_to=pr[0], unit_to=pr[1])
             cp.convert_loading(basis_to=lr[0], unit_to=lr[1])
             cp.convert_temperature(tu)
         except Exception:
@@ -385,7 +388,7 @@ def _run_isosteric(case, ctx):
     fl = RU.fluid(gen.backend_of(str(isos[0].adsorbate)))
     fn = RU.loading_factor(isos[0].loading_basis, isos[0].loading_unit, lr[0], lr[1], fl, isos[0].temperature, "mass", "g")
     rb = _call(ch.isosteric_enthalpy, twins, loading_points=[x * fn for x in lp])
-    info = {"pressure": pr, "loading": lr, "temperature_unit": tu}
+    info = {"pressure": pr, "loading": lr, "temperature_unit": tu, "pressure_converted_on": "one isotherm of the set" if only_one else "all"}
     from pgverif.core import _h
     ctx.case(["isosteric", _h(info)])
     ctx.count("twins", "isosteric_enthalpy/convert")
